@@ -190,7 +190,7 @@ fn main() {
         }
         let cs = Arc::new(cases);
         let (c1, c2) = (cs.clone(), cs.clone());
-        def.spaces.push(Space::new("scaled-lines", cs.len() as u64, move |i, l| check_case(&c1[i as usize], l), move |i| c2[i as usize].json()).wall(5_000));
+        def.spaces.push(Space::new("scaled-lines", cs.len() as u64, move |i, l| check_case(&c1[i as usize], l), move |i| c2[i as usize].json()).wall(30_000));
         def.finish = Some(Box::new(|total, extra| {
             extra.insert("all_violations".into(), json!(total.violations.iter().map(|v| json!({"signature": v.sig, "what": v.what, "cases": v.count, "detail": v.detail, "index": v.idx})).collect::<Vec<_>>()));
         }));
